@@ -14,6 +14,7 @@ import (
 
 	"pgregory.net/rapid"
 
+	"verif/harness/lang"
 	"verif/harness/pipeline"
 	"verif/harness/vt"
 )
@@ -491,6 +492,13 @@ func TestMutants(t *testing.T) {
 	rapid.Check(t, func(rt *rapid.T) {
 		si := rapid.IntRange(0, len(sd)-1).Draw(rt, "seed")
 		s := sd[si]
+		if rapid.IntRange(0, 3).Draw(rt, "generatedSeed") == 0 {
+			// a freshly generated program of the full profile as the seed
+			p := lang.Full
+			p.MaxUnits = 2
+			g := lang.NewGen(rt, p)
+			s = seedFile{name: "generated.fo", text: lang.Print(g.GenProgram(), lang.Canonical{})}
+		}
 		other := sd[rapid.IntRange(0, len(sd)-1).Draw(rt, "otherSeed")].text
 		text := s.text
 		var muts []string
@@ -511,6 +519,9 @@ func TestMutants(t *testing.T) {
 			return err
 		})
 		labels := []string{"outcome:" + v.outcome}
+		if s.name == "generated.fo" {
+			labels = append(labels, "seed: generated program")
+		}
 		for _, m := range muts {
 			labels = append(labels, "mutator:"+strings.SplitN(m, ":", 2)[0])
 		}
